@@ -7,7 +7,7 @@ from extract import dbschema
 from gen import dbgen
 
 THEOREMS = [
-    "IgVerif.C12.c12_extraction_ok", "IgVerif.C12.c12_mirror", "IgVerif.C12.c12_schema_wf",
+    "IgVerif.C12.c12_extraction_ok", "IgVerif.C12.c12_counts_guarded", "IgVerif.C12.c12_mirror", "IgVerif.C12.c12_schema_wf",
     "IgVerif.C12.c12_copy_complete", "IgVerif.C12.c12_roundtrip", "IgVerif.C12.c12_reserialise",
     "IgVerif.C12.c12_old_minor", "IgVerif.C12.c12_version_gate", "IgVerif.C12.c12_id_mismatch_flagged",
     "IgVerif.C12.c12_merge_only_complete", "IgVerif.C12.c12_bad_header_flagged",
@@ -155,6 +155,42 @@ def run(ck):
                 p.write_bytes(data[:c])
                 ops += ["reset", "reqfile %s" % p] + state_ops()
                 meta.append((c, len(ops) - len(state_ops())))
+            if dbschema.UNGUARDED and n == 0:
+                # directed search for the broken obligation c12_counts_guarded: a count that is read after the stream has
+                # failed keeps an indeterminate value; memcheck names the first prefix on which a branch depends on it
+                import subprocess
+                for c in [x for x in cuts if 0 < x < sig][:: max(1, len(cuts) // 40)]:
+                    ck.search_case("prefix-indeterminate-count")
+                    one = "\n".join(["reset", "reqfile %s" % (wd / ("pre%d_%d.in" % (n, c)))] + state_ops()) + "\n"
+                    try:
+                        r = subprocess.run(["valgrind", "-q", "--error-exitcode=97", "--undef-value-errors=yes", str(exe)], input=one.encode(),
+                                           stdout=subprocess.PIPE, stderr=subprocess.PIPE, timeout=120)
+                    except subprocess.TimeoutExpired:
+                        continue
+                    msg = r.stderr.decode("utf-8", "replace")
+                    if r.returncode == 97 and "uninitialised" in msg and "::input" in msg:
+                        ck.violation("prefix-indeterminate:" + ",".join(sorted(set(dbschema.UNGUARDED))),
+                                     "reading the %d-byte prefix of a valid %d-byte file makes input() loop on a count that was never read (%s): "
+                                     "what happens next depends on what the stack held" % (c, len(data), ", ".join(sorted(set(dbschema.UNGUARDED)))),
+                                     {"full.in": data, "prefix.in": data[:c], "memcheck.txt": msg}, "replay: valgrind harness/dbq with `reqfile prefix.in`")
+                        break
+            # a truncated file must be refused promptly: a read loop fed by a count that was never read can run for minutes
+            import time as _time
+            limit = 10 + 0.05 * len(cuts)
+            t0 = _time.time()
+            _, st_t, _ = iglib.run_harness(exe, ops, timeout=limit)
+            ck.search_case("prefix-refused-promptly")
+            if st_t == "timeout" or _time.time() - t0 > limit:
+                slow = None
+                for c in cuts:
+                    t1 = _time.time()
+                    _, st1, _ = iglib.run_harness(exe, ["reset", "reqfile %s" % (wd / ("pre%d_%d.in" % (n, c)))] + state_ops(), timeout=5)
+                    if st1 == "timeout" or _time.time() - t1 > 2:
+                        slow = c
+                        break
+                ck.violation("prefix-hang", "reading prefixes of a valid %d-byte file took more than %.0f s; the %s-byte prefix alone does not come back within seconds" % (len(data), limit, slow),
+                             {"full.in": data, "prefix.in": data[:slow] if slow is not None else b""}, "")
+                continue
             impl, st, err_, model = run_both(ck, exe, ops, timeout=900)
             diffs = iglib.diff_streams(ops, impl, model)
             if st != "ok":
